@@ -246,8 +246,10 @@ def subspaces(tier, seed):
     sp.append(S("S2-mask-pos-n1to3", 2 if q else 3, 1, 3, keys=("float",), mask="pos",
                 sorts=(True,) if q else (True, False), ops=SUB if q else None, seed=seed))
     # the same masks on chunk-wise factorised keys (per-chunk dictionaries, pointer tables)
-    sp.append(S("S2-mask-slice-chunkwise-n1to4", 2, 1, 4, keys=("float",), mask="slice", threshold=1,
+    sp.append(S("S2-mask-slice-chunkwise-n1to3", 2, 1, 3, keys=("float",), mask="slice", threshold=1,
                 sorts=(True,), ops=SUB, seed=seed))
+    sp.append(S("S2-mask-slice-chunkwise-G1-n4", 1, 4, 4, keys=("float",), mask="slice", threshold=1,
+                sorts=(True,), ops=("sum", "first", "size"), seed=seed))
     sp.append(S(f"S2-mask-bool-chunkwise-n1to{hi}", 2 if q else 3, 1, hi, keys=("float",),
                 threshold=1, seed=seed))
     sp.append(S("S2-mask-pos-chunkwise-n1to3", 2, 1, 3, keys=("float",), mask="pos", threshold=1,
